@@ -158,6 +158,11 @@ def rename_init_fini(objs):
             run(["objcopy"] + args + [o])
 
 
+# "the other configuration": what a release build on another ABI looks like - assert() compiled out, plain char unsigned
+# (ARM, AArch64, PowerPC, s390x, RISC-V Linux); both Makefiles take CFLAGS from the user
+ALT_CONFIG = ["-DNDEBUG", "-funsigned-char"]
+
+
 HIST_WRAPS = ["malloc", "free", "calloc", "realloc", "strndup", "strdup", "abort", "__assert_fail"]
 
 
@@ -172,7 +177,7 @@ def build_hist(backend, extra=False, flags=False, ndebug=False, plain=False):
     d = os.path.join(BUILD, name)
     if os.path.isdir(d):
         shutil.rmtree(d)
-    defs = (["-DEAV_EXTRA"] if extra else []) + (FLAG_DEFS if flags else []) + (["-DNDEBUG"] if ndebug else [])
+    defs = (["-DEAV_EXTRA"] if extra else []) + (FLAG_DEFS if flags else []) + (ALT_CONFIG if ndebug else [])
     objs = compile_lib(d, backend, ASAN, defs)
     ext = undefined_externals(objs)
     rename_writable_sections(objs)
@@ -250,7 +255,7 @@ def build_cli(ndebug=False):
     d = os.path.join(BUILD, "cli-ndebug" if ndebug else "cli")
     if os.path.isdir(d):
         shutil.rmtree(d)
-    nd = ["-DNDEBUG"] if ndebug else []
+    nd = ALT_CONFIG if ndebug else []
     objs = compile_lib(d, "idn2", ASAN, nd, with_lib_decoder=False)
     inc = ["-I" + os.path.join(REPO, "include"), "-I" + REPO, "-DHAVE_LIBIDN2"]
     cpp = ["-D_DEFAULT_SOURCE", "-D_XOPEN_SOURCE=700", "-D_SVID_SOURCE", "-D__EXTENSIONS__"] + nd
@@ -314,7 +319,7 @@ def build_sched(variant="", defs=(), backend="idn2"):
     rename_writable_sections(objs)
     rename_init_fini(objs)
     sim = os.path.join(VERIF, "sim")
-    inc = ["-I" + os.path.join(REPO, "include"), "-I" + REPO] + BACKEND_DEFS[backend] + list(defs)
+    inc = ["-I" + os.path.join(REPO, "include"), "-I" + REPO] + BACKEND_DEFS[backend] + [x for x in defs if x.startswith("-D")]
     plain = ["-O1", "-g", "-gdwarf-4", "-fno-omit-frame-pointer", "-fPIC"]
     rt_o = os.path.join(d, "rt.o"); sm_o = os.path.join(d, "sched_sim.o")
     simdefs = [x for x in defs if x.startswith("-DSIM_")]
